@@ -361,6 +361,11 @@ def _hyp_worker(args):
                 # is a failure of the code under test even if the same call succeeds when repeated - the code's behaviour then
                 # depends on state left behind by earlier calls in the same process (a cache, a shared object)
                 st.failure = dict(last, message=last["message"] + f" [seen on the first execution of this case; repeating the same case in the same process reproduced it {again} times out of 3: the outcome depends on state left by earlier calls]")
+            elif last is not None and _fails_in_fresh_process(mod.ID, last) == 2:
+                # not reproducible in this process any more, but it fails every time in a fresh interpreter (which is what the replay
+                # file gives): the code under test keeps state between calls (a cache, a shared object) and this process's copy of
+                # that state has moved on since the first execution
+                st.failure = dict(last, message=last["message"] + f" [seen on the first execution of this case and in 2 of 2 fresh processes; repeating it in the process that found it reproduced it {again} times out of 3: the outcome depends on state left by earlier calls]")
             else:
                 st.error = f"flaky under Hypothesis and not reproducible by plain replay ({again}/3): {e}"
                 st.notes["flaky_case"] = _sample(last["case"]) if last else None
@@ -433,6 +438,35 @@ def run_replay(mod, doc, known):
     return "ok", ""
 
 
+def _fails_in_fresh_process(pid, failure, times=2):
+    """How many of `times` replays of this failing case, each in a fresh interpreter, report a violation."""
+    import subprocess
+    import tempfile
+
+    body = {"property": pid, "kind": failure.get("kind", "case"), "case": failure["case"], "message": failure.get("message", "")}
+    for k in ("tz", "env"):
+        if failure.get(k):
+            body[k] = failure[k]
+    fd, path = tempfile.mkstemp(prefix=f"{pid}-fresh-", suffix=".json")
+    n = 0
+    try:
+        with os.fdopen(fd, "w") as f:
+            json.dump(body, f, default=_default)
+        for _ in range(times):
+            try:
+                r = subprocess.run([os.path.join(env.VERIF, "check"), pid, "--replay", path], stdout=subprocess.PIPE, stderr=subprocess.STDOUT, text=True, timeout=600)
+            except Exception:
+                continue
+            if r.returncode == 1 and "VIOLATION" in r.stdout:
+                n += 1
+    finally:
+        try:
+            os.unlink(path)
+        except OSError:
+            pass
+    return n
+
+
 def write_replay(pid, tier, seed, failure):
     d = os.path.join(env.VERIF, "replays")
     os.makedirs(d, exist_ok=True)
@@ -453,6 +487,10 @@ def write_replay(pid, tier, seed, failure):
 
 def main(argv=None):
     argv = list(sys.argv[1:] if argv is None else argv)
+    try:  # failing cases may contain text that the terminal's encoding cannot carry (lone surrogates): never die while reporting
+        sys.stdout.reconfigure(errors="backslashreplace")
+    except Exception:
+        pass
     if not argv:
         print("usage: check <ID> [quick|thorough] [--replay FILE]", file=sys.stderr)
         return 2
